@@ -205,11 +205,15 @@ class C07(Check):
     pid = "C07"
     props_module = "TcheranVerif.Props.C07"
     gen_modules = ("Magics",)
+    allow_native = ("native_decide",)
     rule = ("exhaustive: every (kind, square, subset of the relevant-blocker mask) = 107,648 slider lookups, all 64 "
             "knight/king squares, 128 pawn entries, 4,096 square pairs; plus random full occupancies with "
             "irrelevant bits set. distinct = distinct requests; all are non-trivial (each is one table cell).")
     assumptions = ["Rust `get_unchecked` reads the slot whose index the model computes (index-in-range is a theorem; "
-                   "the address computation itself is trusted)"]
+                   "the address computation itself is trusted)",
+                   "the 107,648-case sweep `sweep_ok` is discharged by native_decide (axiom Lean.ofReduceBool / "
+                   "sweep_ok._native.native_decide.*: trust in the Lean compiler for one closed Boolean term); every "
+                   "other C07 theorem is kernel-only"]
 
     def streams(self):
         req = os.path.join(self.wd, "c07.req")
@@ -517,12 +521,31 @@ class C06(Check):
                 feats.append("rejected")
                 if spec.startswith("ok "):
                     oracle = f"canonical FEN of a legal position rejected: {text!r}"
-        elif kind == "fenwrite":
-            # spec = canonical text by the rules-side writer
+        elif kind == "fenrt":
+            # text is the canonical FEN of a legal position (written by the rules-side writer);
+            # impl: strict-reader(text) -> engine writer -> engine reader
             if impl in ("panic", "crash"):
-                oracle = f"FEN writer crashes on {text!r}"
-            elif impl != spec:
-                oracle = f"wrote {impl!r} for position {spec!r}"
+                oracle = f"FEN writer/reader crashes on {text!r}"
+            else:
+                m = re.match(r"W=(.*?) G0=(.*?) G1=(.*)$", impl)
+                if not m:
+                    corr = corr or "unparseable fenrt answer"
+                else:
+                    w, g0, g1 = m.group(1), kv(m.group(2)), m.group(3)
+                    if w != text:
+                        oracle = f"position {text!r} is written as {w!r}"
+                    elif not g1.startswith("ok "):
+                        oracle = f"the engine cannot read back its own FEN {w!r} ({g1[:20]})"
+                    else:
+                        d1 = kv(g1[3:].split(" W=")[0])
+                        for key in ("B", "P", "R", "E", "H", "L", "Z", "PH", "MG", "EG"):
+                            if d1.get(key) != g0.get(key):
+                                oracle = f"write/read round trip changes {key}: {g0.get(key)} -> {d1.get(key)} for {text!r}"
+                                break
+                        if not oracle and d1["Z"] != d1["ZR"]:
+                            oracle = f"key after reading differs from recomputation: {text!r}"
+                        if not oracle and " W=" in g1 and g1.split(" W=")[1] != w:
+                            oracle = f"reading {w!r} and writing it back gives {g1.split(' W=')[1]!r}"
         return corr, oracle, feats, (text if text != "rnbqkbnr/pppppppp/8/8/8/8/PPPPPPPP/RNBQKBNR w KQkq - 0 1" else None)
 
 
